@@ -129,6 +129,14 @@ example : xorBytes goodFrame (xorBytes (bitError 8 0) (bitError 8 63))
 (`Crc.extract_full`, `Crc.extract_full_ok`); the corrupted string has the same length, so "the
 full-length frame at the original position" is `extractFrame (F ⊕ E) (F.length - 3)`. -/
 
+/-- `CrcOk` is exactly the extractor's verdict at full length -/
+theorem extract_full_iff (f : Bytes) :
+    (∃ fr, Rtu.extractFrame f (f.length - 3) = .ok (some fr)) ↔
+      (3 ≤ f.length ∧ f.length < usizeLimit ∧ CrcOk f) := by
+  constructor
+  · rintro ⟨fr, h⟩; exact extract_full_ok f fr h
+  · rintro ⟨h3, hlt, hok⟩; exact (extract_full f h3 hlt).1 hok
+
 /-- the combined statement of DESIGN.md §6 C08: a frame accepted at full length, hit by a single-bit
     error, a burst of at most 16 bits, or (length ≤ 256) a double-bit error, is rejected with
     `Error::Crc` at full length -/
